@@ -160,10 +160,34 @@ def pat_torn(ops):
     return n
 
 
+def pat_copied(ops):
+    """an index made next to the images, the product copied elsewhere with it, the ORIGINAL place then changed (redelivered, damaged), the copy
+    opened through the index: whatever the index recorded about where it was made must not matter"""
+    n = 0
+    adj = set()
+    copied = {}
+    for o in ops:
+        if o["op"] == "cli" and o["target"] == "adjacent" and o["outcome"] == "ok":
+            adj.add(o["loc"])
+        if o["op"] == "copyto":
+            if o["loc"] in adj:
+                copied[o["dst"]] = [o["loc"], False]
+            n += 1
+        if o["op"] in ("redeliver", "damage"):
+            for dst, rec in copied.items():
+                if rec[0] == o["loc"]:
+                    rec[1] = True
+            if o["op"] == "redeliver":
+                copied.pop(o["loc"], None)
+        if o["op"] == "open" and o["loc"] in copied and o["uc"] and o["outcome"] == "tree" and o["judged"]:
+            n += 20 if copied[o["loc"]][1] else 3
+    return n
+
+
 PATTERNS = {
     "reopen_after_damage": pat_reopen_after_damage, "reopen_after_redeliver": pat_reopen_after_redeliver, "refresh": pat_refresh,
     "load_mutate_load": pat_load_mutate_load, "cached_rpcs": pat_cached_rpcs, "cached_opens": pat_cached_opens, "two_locs": pat_two_locs,
-    "copy_load": pat_copy_load, "cachedir": pat_cachedir, "torn": pat_torn,
+    "copy_load": pat_copy_load, "cachedir": pat_cachedir, "torn": pat_torn, "copied": pat_copied,
 }
 
 
@@ -245,7 +269,7 @@ STANDARD = {
     "C03": [("MC_Alos2_sim_redeliver", ["reopen_after_redeliver"], None, ("P", "Q"), (300, 1500), (16, 160), 12)],
     "C04": [("MC_Alos2_sim_redeliver", ["reopen_after_redeliver"], None, ("P", "Q"), (300, 1500), (16, 160), 12)],
     "C06": [("MC_Alos2_sim_cache", ["cached_rpcs"], None, ("P",), (300, 2000), (24, 240), 12)],
-    "C07": [("MC_Alos2_sim_redeliver", ["refresh", "cached_opens"], None, ("P", "Q"), (400, 2000), (24, 240), 12),
+    "C07": [("MC_Alos2_sim_redeliver", ["refresh", "cached_opens", "copied"], ["refresh", "cached_opens"], ("P", "Q"), (400, 2000), (24, 240), 12),
             ("MC_Alos2_sim_cache", ["cached_rpcs", "cached_opens"], None, ("P",), (300, 2000), (16, 160), 12)],
     "C08": [("MC_Alos2_sim_cache", ["cached_opens", "cached_rpcs"], ["cached_opens"], ("P",), (300, 1500), (16, 160), 12)],
     "C09": [("MC_Alos2_sim_cache", ["torn", "cachedir"], None, ("P",), (300, 2000), (24, 240), 12)],
@@ -282,7 +306,7 @@ PROFILES = {
 
 
 # properties whose history patterns need several steps at ONE location (index made, used, product redelivered, index made again, used)
-TRACE_LOCS = {"C07": ("P",), "C08": ("P",), "C06": ("P",), "C09": ("P",), "C12": ("P",), "C13": ("P",)}
+TRACE_LOCS = {"C08": ("P",), "C06": ("P",), "C09": ("P",), "C12": ("P",), "C13": ("P",)}
 
 
 def standard(chk):
